@@ -122,6 +122,25 @@ def check_geometry(ctx, case, coords, desc):
             ctx.check(dk <= 3.0, "baseline_row_misses_a_given_point",
                       lambda: "point %d %r is %.2f px from the baseline row; " % (k, p, dk) + desc())
         ctx.event("interpolating_mode")
+    # polynomial modes fit the points: with more points than the degree determines, the baseline row is the least-squares
+    # polynomial of that degree through the points, in the frame in which the chord from the first to the last point is
+    # horizontal (computed here from the whole-pixel points with numpy's solver; tolerance 1 px)
+    if case["poly"] in (1, 2) and len(base) >= 3 and distinct:
+        P = np.floor(np.asarray(base, dtype=np.float64))
+        ang = math.atan2(P[-1, 1] - P[0, 1], P[-1, 0] - P[0, 0])
+        ca, sa = math.cos(ang), math.sin(ang)
+        rot = lambda q: np.stack([q[:, 0] * ca + q[:, 1] * sa, -q[:, 0] * sa + q[:, 1] * ca], axis=1)
+        Pr = rot(P)
+        if len(np.unique(np.round(Pr[:, 0], 6))) == len(Pr):
+            deg = min(case["poly"], len(Pr) - 1)
+            V = np.vander(Pr[:, 0], deg + 1)
+            coef = np.linalg.lstsq(V, Pr[:, 1], rcond=None)[0]
+            Cr = rot(centre[::max(1, W // 60)])
+            off = np.abs(Cr[:, 1] - np.polyval(coef, Cr[:, 0]))
+            ctx.check(float(off.max()) <= 1.0, "baseline_row_is_not_the_least_squares_fit_of_the_points",
+                      lambda: "order %d through %d points: the baseline row is up to %.2f px from the least-squares polynomial; " % (case["poly"], len(base), float(off.max())) + desc())
+            if float(np.abs(Pr[:, 1] - Pr[0, 1]).max()) > 2.0:
+                ctx.event("fit_through_non_collinear_points")
     d0 = math.hypot(*(centre[0] - np.asarray(base[0])))
     d1 = math.hypot(*(centre[-1] - np.asarray(base[-1])))
     step = L / max(1, W - 1)
